@@ -453,7 +453,88 @@ func (d *driver) confirm(f found, replayDir string) (string, bool, string) {
 	}
 	writeJSON(path, rf)
 	code, out := d.childReplay(path, f.phase.Race, tag)
-	return path, code == 0, out
+	if code == 0 {
+		return path, true, out
+	}
+	// The single run does not show it in a fresh process. It may depend on
+	// state left behind by the earlier runs of its worker process (exactly
+	// what C13 is about): replay the worker's history up to the run, then
+	// minimise the history by delta debugging over fresh child processes.
+	hist := rf
+	hist.Tape, hist.TapeFull, hist.Shrunk, hist.EventHash = nil, 0, 0, ""
+	var pre []uint64
+	for i := f.wv.ChunkFrom; i < f.wv.Index; i++ {
+		pre = append(pre, i)
+	}
+	if len(pre) == 0 {
+		return path, false, out
+	}
+	join := func(l []uint64) string {
+		var sb strings.Builder
+		for _, x := range l {
+			fmt.Fprintf(&sb, "%d ", x)
+		}
+		return strings.TrimSpace(sb.String())
+	}
+	tmp := filepath.Join(d.outDir, "hist-"+tag+".json")
+	test := func(l []uint64) (bool, string) {
+		h := hist
+		h.Prelude = join(l)
+		writeJSON(tmp, h)
+		c, o := d.childReplay(tmp, f.phase.Race, tag)
+		return c == 0, o
+	}
+	ok, o2 := test(pre)
+	if !ok {
+		return path, false, out + "\n(history replay of runs " + fmt.Sprint(f.wv.ChunkFrom) + ".." + fmt.Sprint(f.wv.Index) + " did not reproduce it either)\n" + o2
+	}
+	// ddmin, budgeted
+	execs := 0
+	n := 2
+	for len(pre) >= 2 && execs < 40 {
+		chunk := (len(pre) + n - 1) / n
+		reduced := false
+		for i := 0; i < len(pre) && execs < 40; i += chunk {
+			end := i + chunk
+			if end > len(pre) {
+				end = len(pre)
+			}
+			cand := append(append([]uint64{}, pre[:i]...), pre[end:]...)
+			execs++
+			if ok, _ := test(cand); ok {
+				pre = cand
+				if n > 2 {
+					n--
+				}
+				reduced = true
+				break
+			}
+		}
+		if !reduced {
+			if n >= len(pre) {
+				break
+			}
+			n *= 2
+			if n > len(pre) {
+				n = len(pre)
+			}
+		}
+	}
+	hist.Prelude = join(pre)
+	hist.Shrunk = execs
+	hist.Note = fmt.Sprintf("history-dependent: the run only fails after the listed earlier runs of the same process (%d of the %d that preceded it in its worker were needed after delta debugging); all runs are regenerated from their seeds", len(pre), f.wv.Index-f.wv.ChunkFrom)
+	writeJSON(path, hist)
+	c1, o1 := d.childReplay(path, f.phase.Race, tag)
+	if c1 != 0 {
+		return path, false, o1
+	}
+	if m := regexp.MustCompile(`event_hash=([0-9a-f]{16})`).FindStringSubmatch(o1); m != nil {
+		hist.EventHash = m[1]
+		writeJSON(path, hist)
+		c2, o2 := d.childReplay(path, f.phase.Race, tag)
+		return path, c2 == 0, o2
+	}
+	return path, true, o1
 }
 
 func checkMain(args []string) int {
